@@ -50,6 +50,9 @@ pub struct Case {
     pub bystander_dirs: Vec<String>,
     pub active: String,
     pub rolls: Vec<Vec<u8>>,
+    /// the rolled file lives on another filesystem than the archives (rename fails with EXDEV: copy fallback)
+    #[serde(default)]
+    pub cross_device: bool,
 }
 
 fn content() -> impl Strategy<Value = Vec<u8>> {
@@ -71,8 +74,9 @@ pub fn strategy() -> impl Strategy<Value = Case> {
         prop::collection::vec((any::<u16>(), content()), 0..=3),
         prop::collection::vec(content(), 1..=10),
         any::<u16>(),
+        prop::bool::weighted(0.2),
     )
-        .prop_map(|(delete_roller, count, base_kind, pat, init_kind, init, by, rolls, act)| {
+        .prop_map(|(delete_roller, count, base_kind, pat, init_kind, init, by, rolls, act, cross_device)| {
             let base: u32 = match base_kind {
                 0 => 0,
                 1 => 1,
@@ -133,6 +137,7 @@ pub fn strategy() -> impl Strategy<Value = Case> {
                 bystander_dirs: vec!["emptydir".into()],
                 active: pick(&actives[..], act).to_string(),
                 rolls,
+                cross_device,
             }
         })
 }
@@ -147,6 +152,11 @@ fn write_file(p: &Path, b: &[u8]) {
 pub fn check(tmp: &Path, case: &Case, obs: &mut Obs) -> CaseResult {
     let dir = scratch(tmp, "c07");
     let r = check_in(&dir, case, obs);
+    if case.cross_device {
+        if let Some(a) = other_fs_dir(&dir) {
+            let _ = std::fs::remove_dir_all(a);
+        }
+    }
     let _ = std::fs::remove_dir_all(&dir);
     r
 }
@@ -189,7 +199,11 @@ fn check_in(dir: &Path, case: &Case, obs: &mut Obs) -> CaseResult {
     };
     #[cfg(feature = "bg")]
     let fw_for_wait: Option<FixedWindowRoller> = if case.delete_roller { None } else { FixedWindowRoller::builder().base(case.base).build(&pattern_abs, case.count).ok() };
-    let active = dir.join(&case.active);
+    let alt = if case.cross_device { other_fs_dir(dir) } else { None };
+    let active = match &alt {
+        Some(a) => a.join(&case.active),
+        None => dir.join(&case.active),
+    };
     let gap_free_start = {
         let mut offs: Vec<i64> = initial.iter().map(|(o, _)| *o).filter(|o| *o >= 0 && *o < c).collect();
         offs.sort();
@@ -205,7 +219,7 @@ fn check_in(dir: &Path, case: &Case, obs: &mut Obs) -> CaseResult {
         {
             // the roller handed to the appender and this clone do not share state; wait by observing the temp file
             let _ = &fw_for_wait;
-            wait_bg_idle(dir, &case.active);
+            wait_bg_idle(&active);
         }
         match res {
             Err(p) => {
@@ -217,7 +231,7 @@ fn check_in(dir: &Path, case: &Case, obs: &mut Obs) -> CaseResult {
         }
         obs.sub_evals += 1;
         let after = snap(dir);
-        ensure!(!after.files.contains_key(&case.active), "C07:rolled-file-remains", "roll #{}: the rolled file still exists at its original path", ri);
+        ensure!(!active.exists(), "C07:rolled-file-remains", "roll #{}: the rolled file still exists at its original path", ri);
         // window contents before/after by ascending offset
         let window = |s: &Snap| -> Vec<(i64, Vec<u8>)> { (0..c).filter_map(|o| s.files.get(&name(o)).map(|b| (o, b.clone()))).collect() };
         let wb = window(&before);
@@ -289,14 +303,15 @@ fn check_in(dir: &Path, case: &Case, obs: &mut Obs) -> CaseResult {
     obs.class_if(case.pattern.contains("$ENV"), "env-reference");
     obs.class_if(case.base as u64 + case.count as u64 > u32::MAX as u64, "base+count-overflows-u32");
     obs.class_if(case.delete_roller, "delete-roller");
+    obs.class_if(alt.is_some(), "rolled-file-on-another-filesystem");
     obs.class_if(case.initial.iter().any(|(o, _)| *o < 0 || *o >= c), "archives-outside-window");
     Ok(())
 }
 
 /// background rotation renames the rolled file to `<stem>.<unix seconds>` first: wait until it is gone
 #[cfg(feature = "bg")]
-pub fn wait_bg_idle(dir: &Path, active: &str) {
-    let p = dir.join(active);
+pub fn wait_bg_idle(active: &Path) {
+    let p = active.to_path_buf();
     let parent = p.parent().unwrap().to_path_buf();
     let stem = p.file_stem().unwrap().to_string_lossy().to_string();
     let deadline = std::time::Instant::now() + std::time::Duration::from_secs(20);
